@@ -18,7 +18,8 @@ type Request struct {
 	Src       HB   `json:"src"`
 	WantToks  bool `json:"toks,omitempty"`
 	WantProto bool `json:"proto,omitempty"`
-	File      bool `json:"file,omitempty"` // load through LState.LoadFile from a temporary file
+	File      bool `json:"file,omitempty"`  // load through LState.LoadFile from a temporary file
+	WantParse bool `json:"parse,omitempty"` // also run the parse stage alone (parse.Parse)
 	LimitMs   int  `json:"-"`
 }
 
@@ -40,6 +41,9 @@ func childMain() {
 		}
 		if rq.WantToks {
 			res.Toks, res.LexErr, res.LexFail = scanAll(rq.Src)
+		}
+		if rq.WantParse {
+			res.ParseStage, res.ParseMsg = parseStage(rq.Src)
 		}
 		res.Micros = time.Since(t0).Microseconds()
 		b, _ := json.Marshal(res)
